@@ -35,7 +35,8 @@ CLAIMS = {
         "C04_gs1_unused_exact): the whole query on the SPEC script of any well-formed state — any number of players below 65536, any subset of optional per-player "
         "fields, any cut into parts with query ids, every writing style — equals the expected response, and unused entries = sent − typed − player fields. GameSpy 2 "
         "(C04_gs2_query, C04_gs2_table, C04_gs2_vars, C04_gs2_unused_exact): 0-255 players and teams, extra columns, 0-row tables. GameSpy 3 (C04_gs3_*): challenge "
-        "handshake, splitnum packets in any order, player and team field sections, query_vars returns exactly the pairs sent. Tie + oracle: SPEC-generated states "
+        "handshake, splitnum packets in any order, player and team field sections, any allowed field sections the response has no place for at any "
+        "positions (C04_gs3_query_extra, found and repaired a reader defect on the way), query_vars returns exactly the pairs sent. Tie + oracle: SPEC-generated states "
         "(0-64 players, 0-8 teams, extra variables, optional fields, 1-7 packets/parts) on the real code."),
   note=TB + "text is strict UTF-8 up to the first NUL; `to_lowercase().parse::<bool>()` is modelled as ASCII lower-casing (justified in Proto/GsCommon.lean).",
   technique="Lean 4 proof (decode∘encode per GameSpy version; canonical-map form for the multi-part merge) + SPEC-driven differential"),
@@ -203,14 +204,22 @@ CLAIMS = {
   technique="Lean 4 proof (permutation invariance of sort-based reassembly) + exhaustive permutation/duplication differential"),
  "C10": dict(
   category="proof",
-  text=("Lean 4 theorems about the model of retry_on_timeout for every retry count r and every unit: never more than r+1 attempts; "
+  text=("Lean 4 theorems. (1) The model of retry_on_timeout for every retry count r and every unit: never more than r+1 attempts; "
         "after L<=r timed-out attempts the first non-timeout attempt (valid or malformed) decides the result after exactly L+1 attempts "
         "(a malformed reply is never retried); r+1 timeouts give the last timeout-class error; the combinator has no crash of its own for "
-        "any r (incl. usize::MAX, repaired in /repo). Each Valve request with its challenge rounds is definitionally one retried unit. "
-        "Tie + oracle: all outcome vectors over {silent, send fault, malformed, valid} up to length r+2, r in 0..3, at each Valve unit, "
-        "attempts counted on the wire."),
-  note=TB + "timeouts are scripted (silence); real socket timeouts belong to C12.",
-  technique="Lean 4 proof (induction on the retry count over attempt chains) + fault-vector differential"),
+        "any r (incl. usize::MAX, repaired in /repo). (2) END TO END on whole queries under any fault plan (Props/C10_<family>_whole.lean; "
+        "Valve, The Ship, FFOW, Quake 1/2/3, GameSpy 2, GameSpy 3 incl. query_vars, JC2M): for every state of the SPEC's domain, every setting and "
+        "retry count, and failed attempts (a silence or a failed send, at the first exchange of an attempt or after its challenge / handshake "
+        "rounds) placed before the valid exchange of each unit: if every unit loses at most r attempts the query returns exactly the fault-free "
+        "response and unit i is attempted k_i+1 times (…_query_recovers); after r+1 timeouts of an enforced unit the query fails with the last "
+        "failure's receive/send-class error after exactly r+1 attempts and later units are not touched (…_query_exhausted); a unit that is only "
+        "tried leaves the response intact with the section absent; a malformed reply ends the unit at once whatever r (…_malformed_not_retried); "
+        "the whole list of datagrams sent, with failed flags, in closed form (…_query_faulty). Tie + oracle: all outcome vectors over {silent, send "
+        "fault, malformed, valid} up to length r+2, r in 0..3, at each unit and stage of every family with a fault builder, recovering vectors at two "
+        "or three units of one query at once, attempts counted on the wire; for the families under (2) every injected script is rebuilt by the model "
+        "driver from the SPEC's plan (identical line, theorem hypotheses evaluated, result and sent list compared with the SPEC's)."),
+  note=TB + "timeouts are scripted (silence); real socket timeouts belong to C12. Whole-query theorems do not yet cover GameSpy 1, Unreal 2, Minecraft and Mindustry (new socket or TCP per attempt; receive loops), nor a timeout between the fragments of one reply. Recorded finding: The Ship reports an exhausted players / rules unit as PacketBad.",
+  technique="Lean 4 proof (induction on the retry count; exact-outcome logic Steps over queue, fault flags and sent list for whole queries) + fault-vector and plan differential"),
  "C11": dict(
   category="proof",
   text=("Lean 4 theorems: maybe_gather! semantics for Skip (function not run, transport state untouched, section absent), Try (failure of any "
